@@ -63,6 +63,9 @@ class Builtins(OpsMixin, LoopsMixin):
     # names
     # ------------------------------------------------------------------
     def global_name(self, ex, name):
+        sc = getattr(ex.reg, "spec_consts", None)
+        if sc and name in sc and ex.spec:
+            return sc[name]
         if name in ex.reg.specfuncs and ex.spec:
             return VFunc("spec", name, ex.reg.specfuncs[name])
         if name in BUILTIN_CLASSES:
@@ -218,6 +221,16 @@ class Builtins(OpsMixin, LoopsMixin):
         if isinstance(v, (VTuple, VSeq, VStr, VCell)) or isinstance(ex.deref(p, v), (VTuple, VSeq)):
             yield p, VFunc("builtin", "method:" + attr, self_val=v)
             return
+        if type(v).__name__ == "VRegex" and attr in ("match", "search"):
+            yield p, VFunc("builtin", "regex." + attr, self_val=v)
+            return
+        if type(v).__name__ == "VMatch":
+            if attr == "group":
+                yield p, VFunc("builtin", "match.group", self_val=v)
+                return
+            if attr == "string":
+                yield p, v.subject
+                return
         if isinstance(v, VExc):
             if attr == "message":
                 yield p, VStr(V.fresh("msg", StrS))
@@ -961,7 +974,28 @@ class Builtins(OpsMixin, LoopsMixin):
         p.assume(z3.ForAll([i], z3.Implies(z3.And(i >= r, i < n), (a.t[i] > vt) if right else (a.t[i] >= vt))))
         yield p, VInt(r)
 
+    def b_re_compile(self, ex, p, args, kwargs, node, f):
+        from .regex import VRegex
+        pat = z3.simplify(ex.deref(p, args[0]).t)
+        if not z3.is_string_value(pat):
+            raise Unsupported("re.compile of a non-constant pattern")
+        yield p, VRegex(pat.as_string())
+
+    def b_regex_match(self, ex, p, args, kwargs, node, f):
+        from .regex import do_match
+        subj = ex.deref(p, args[0])
+        for p1, s1 in ex.narrow(p, subj):
+            if not isinstance(s1, VStr):
+                raise Unsupported("regex match on %r" % (s1,))
+            yield p1, do_match(ex, p1, f.self_val, s1, f.name.split(".")[1])
+
+    def b_match_group(self, ex, p, args, kwargs, node, f):
+        from .regex import match_group
+        yield p, match_group(ex, p, f.self_val, ex.deref(p, args[0]) if args else VInt(0))
+
     table = {
+        "re.compile": b_re_compile, "regex.match": b_regex_match, "regex.search": b_regex_match,
+        "match.group": b_match_group,
         "np.array": b_np_array, "np.where": b_np_where, "np.asarray": b_np_array, "np.searchsorted": b_np_searchsorted,
         "len": b_len, "abs": b_abs, "min": b_minmax, "max": b_minmax, "isinstance": b_isinstance,
         "hasattr": b_hasattr, "range": b_range, "enumerate": b_enumerate, "zip": b_zip,
@@ -1134,6 +1168,13 @@ class Builtins(OpsMixin, LoopsMixin):
             yield p, VStr(v.t, False)
             return
         if name == "format":
+            vals = [ex.deref(p, a) for a in args] + [ex.deref(p, a) for a in kwargs.values()]
+            base = z3.simplify(v.t)
+            if z3.is_string_value(base) and all(isinstance(a, VStr) and z3.is_string_value(z3.simplify(a.t)) for a in vals):
+                pa = [z3.simplify(ex.deref(p, a).t).as_string() for a in args]
+                ka = {k: z3.simplify(ex.deref(p, a).t).as_string() for k, a in kwargs.items()}
+                yield p, VStr(base.as_string().format(*pa, **ka))
+                return
             yield p, VStr(V.fresh("fmt", StrS))
             return
         if name == "startswith":
